@@ -103,7 +103,9 @@ func runC01(c *Ctx) {
 			}
 			for _, mu := range ins {
 				q := &PathQuery{Fn: g, Target: isIns(mu), Assume: []Assume{assumeHas("[0] == 36", true), assumeHas(wc, true),
-					{Match: func(t string) bool { return strings.HasPrefix(t, "builtin.len(") && strings.HasSuffix(t, ".Filter) > 0") }, Truth: true}}}
+					{Match: func(t string) bool {
+						return strings.HasPrefix(t, "builtin.len(") && strings.HasSuffix(t, ".Filter) > 0")
+					}, Truth: true}}}
 				if wc == "[0] == 35" {
 					q.Assume = append(q.Assume, assumeHas("[0] == 43", false))
 				}
@@ -224,7 +226,9 @@ func runC02(c *Ctx) {
 		}
 		c.ob("C02.b no-phantom-results", fmt.Sprintf("(*mqtt.TopicsIndex).scanMessages: result append under %s takes the packet from the retained store", guardKey(ci)), c.pos(ci.Pos()), okp, d)
 		c.underFact("C02.b no-phantom-results", fmt.Sprintf("(*mqtt.TopicsIndex).scanMessages: result append under %s only when the store has the message", guardKey(ci)), ci,
-			func(t string) bool { return strings.HasPrefix(t, "(*packets.Packets).Get(x.Retained,") && strings.HasSuffix(t, "#1") }, true, "")
+			func(t string) bool {
+				return strings.HasPrefix(t, "(*packets.Packets).Get(x.Retained,") && strings.HasSuffix(t, "#1")
+			}, true, "")
 	}
 	c.floor("C02.b result appends", n, 3)
 	// (d) parent level on '#'
@@ -486,7 +490,9 @@ func init() {
 }
 
 func runC30(c *Ctx) {
-	valid := func(t string) bool { return strings.HasPrefix(t, "mqtt.IsValidFilter(") && strings.HasSuffix(t, ", false)") }
+	valid := func(t string) bool {
+		return strings.HasPrefix(t, "mqtt.IsValidFilter(") && strings.HasSuffix(t, ", false)")
+	}
 	if f := c.fn("mqtt", "(*Server).processSubscribe"); f != nil {
 		c.underFact("C30.a validate-before-create", "(*mqtt.Server).processSubscribe: Topics.Subscribe only for a filter IsValidFilter accepted", c.call1(f, fnTopicsSub), valid, true, "")
 		c.underFact("C30.a validate-before-create", "(*mqtt.Server).processSubscribe: the client's subscription set grows only for a valid filter", c.call1(f, "(*mqtt.Subscriptions).Add"), valid, true, "")
@@ -683,7 +689,10 @@ func runC31(c *Ctx) {
 		c.ob("C31.b trim-keeps-live-nodes", "(*mqtt.TopicsIndex).trim deletes the node from its parent by its own key", c.pos(f.Pos()), d != nil && strings.HasSuffix(describe(d.Common().Args[1]), ".key") && strings.Contains(describe(d.Common().Args[0]), ".parent.particles"), "")
 	}
 	// (c) existed reports
-	for _, spec := range []struct{ fn string; lookups []string }{
+	for _, spec := range []struct {
+		fn      string
+		lookups []string
+	}{
 		{"(*TopicsIndex).Subscribe", []string{"(*mqtt.Subscriptions).Get", "(*mqtt.SharedSubscriptions).Get"}},
 		{"(*TopicsIndex).InlineSubscribe", []string{"(*mqtt.InlineSubscriptions).Get"}},
 		{"(*TopicsIndex).Unsubscribe", []string{"(*mqtt.Subscriptions).Get", "(*mqtt.SharedSubscriptions).Get"}},
